@@ -114,15 +114,15 @@ def shrink_query(seed, size, paths):
     return batch(["shrink %d %d %s" % (seed, size, ",".join(map(str, p)) if p else "-") for p in paths])
 
 
-def shrink(seed, size, still_fails, max_steps=200, log=None, budget_s=600):
+def shrink(seed, size, still_fails, max_steps=400, log=None, budget_s=600, start_path=()):
     """Greedy model-level shrinking.  `still_fails(prog_dict) -> bool` runs the real
     implementation.  Candidates are produced by the Coq function Shrink.cands; only
     candidates the model accepts (typecheck = true, result = done) are tried.
     Returns (path, prog_dict) of the smallest failing program found."""
     import time
     t0 = time.time()
-    path = []
-    cur = shrink_query(seed, size, [[]])[0]
+    path = list(start_path)
+    cur = shrink_query(seed, size, [path])[0]
     start = 0
     for step in range(max_steps):
         n = cur.get("ncands", 0)
